@@ -1008,7 +1008,12 @@ def colorized_pyval_fallback(_: List[ParseError], doc:ParsedDocstring, __:model.
     """
     This fallback function uses L{ParsedDocstring.to_node()}, so it must be used only with L{ParsedDocstring} subclasses that implements C{to_node()}.
     """
-    return Tag('code')(node2stan.gettext(doc.to_node()))
+    try:
+        return Tag('code')(node2stan.gettext(doc.to_node()))
+    except Exception:
+        # The parsed docstring has no docutils representation (i.e. ParsedTypeDocstring) or building it
+        # failed as well: this runs inside the error handler of safe_to_stan(), it must not raise.
+        return BROKEN
 
 def _format_constant_value(obj: model.Attribute) -> Iterator["Flattenable"]:
 
